@@ -30,6 +30,9 @@ nothing is evaluated:
   split_chain_loops     `for T in chain(A, B): S` -> the loop over A followed by the loop over B;  `for c, x in zip(repeat(K), X)` -> the
                         loop over X with c = K
 
+  inline_context_managers  (opt-in) `with CM(..) as v: B` -> what entering CM does; v = ..; B; what leaving it does  (contextlib.nullcontext,
+                        @contextmanager generators with one yield, small classes with __enter__/__exit__ whose fields become locals)
+
 A transformation that cannot be applied safely (re-assigned names, break/continue, *args, generators, early returns) leaves the
 code as it is; the rules then see the original spelling."""
 from __future__ import annotations
@@ -2651,6 +2654,174 @@ def split_chain_loops(func):
         return out
     func.body = block(func.body) or [ast.Pass()]
     return ast.fix_missing_locations(func)
+
+
+# ------------------------------------------------------------------------------------------------ context managers (opt-in pass)
+
+def _is_cm_decorator(d) -> bool:
+    return ast.unparse(d).split(".")[-1] == "contextmanager"
+
+
+def _relocate(stmts, like, end: bool = False):
+    """the inlined statements stand where the `with` stands (its last line for what runs on leaving the block)"""
+    line = (getattr(like, "end_lineno", None) or like.lineno) if end else like.lineno
+    for st in stmts:
+        for n in ast.walk(st):
+            if hasattr(n, "lineno"):
+                n.lineno = n.end_lineno = line
+                n.col_offset = n.end_col_offset = 0
+        ast.fix_missing_locations(st)
+        for n in ast.walk(st):
+            if not hasattr(n, "lineno") and isinstance(n, (ast.stmt, ast.expr)):
+                n.lineno = n.end_lineno = line
+    return stmts
+
+
+class _SelfFields(ast.NodeTransformer):
+    """`<obj>.X` -> the local `<obj>_X`: the fields of an object that never leaves the function are locals"""
+
+    def __init__(self, obj):
+        self.obj = obj
+
+    def visit_Attribute(self, n):
+        self.generic_visit(n)
+        if isinstance(n.value, ast.Name) and n.value.id == self.obj:
+            return ast.copy_location(ast.Name(id=f"{self.obj}_{n.attr}", ctx=n.ctx), n)
+        return n
+
+
+def _cm_parts(call, resolve):
+    """(entry statements, value bound by `as` | None, exit statements) equal to entering / leaving (without an exception) the
+    context manager built by `call`, or None.  Understood: contextlib.nullcontext(); a @contextmanager generator function with one
+    top-level `yield`; a class with __enter__ / __exit__ (and an optional __init__) whose methods use the instance only through its
+    fields -- the instance lives in fresh locals, one per field."""
+    if not isinstance(call, ast.Call):
+        return None
+    fname = ast.unparse(call.func)
+    if fname.split(".")[-1] == "nullcontext" and len(call.args) <= 1 and not call.keywords:
+        return [], (call.args[0] if call.args else ast.Constant(value=None)), []
+    if not isinstance(call.func, ast.Name):
+        return None
+    callee = resolve(call.func.id)
+    if isinstance(callee, ast.FunctionDef) and any(_is_cm_decorator(d) for d in callee.decorator_list):
+        ys = [n for n in ast.walk(callee) if isinstance(n, (ast.Yield, ast.YieldFrom))]
+        top = [i for i, st in enumerate(_callee_body(callee)) if isinstance(st, ast.Expr) and isinstance(st.value, ast.Yield)]
+        if len(ys) != 1 or len(top) != 1 or any(isinstance(n, (ast.Return, ast.Try)) for n in ast.walk(callee)):
+            return None
+        plain = copy.deepcopy(callee)
+        plain.decorator_list = []
+        rb = _renamed_body(plain, call)
+        if rb is None:
+            return None
+        pre, body = rb
+        i = top[0]
+        return pre + body[:i], body[i].value.value, body[i + 1:]
+    if isinstance(callee, ast.ClassDef):
+        meths = {m.name: m for m in callee.body if isinstance(m, ast.FunctionDef)}
+        if "__enter__" not in meths or "__exit__" not in meths or any(ast.unparse(b) not in ("object",) for b in callee.bases) or callee.decorator_list:
+            return None
+        k = next(_counter)
+        obj = f"_cm{k}"
+        recv = ast.Name(id=obj, ctx=ast.Load())
+
+        def part(m, c, drop_return: bool):
+            if m.decorator_list or any(isinstance(n, (ast.Yield, ast.YieldFrom)) for n in ast.walk(m)):
+                return None
+            rb = _renamed_body(m, c, recv)
+            if rb is None:
+                return None
+            pre, body = rb
+            ret = None
+            if body and isinstance(body[-1], ast.Return):
+                ret = body[-1].value
+                body = body[:-1]
+            if any(isinstance(n, ast.Return) for b in body for n in ast.walk(b)):
+                return None
+            stmts = [_SelfFields(obj).visit(b) for b in pre + body]
+            if ret is not None and not (isinstance(ret, ast.Name) and ret.id == obj):
+                ret = _SelfFields(obj).visit(ret)
+            # the instance itself must not escape (passed on, stored, compared): only its fields are modelled
+            if any(isinstance(n, ast.Name) and n.id == obj for b in stmts for n in ast.walk(b)):
+                return None
+            return stmts, (None if drop_return else ret)
+        entry = []
+        if "__init__" in meths:
+            r = part(meths["__init__"], call, True)
+            if r is None:
+                return None
+            entry += r[0]
+        elif call.args or call.keywords:
+            return None
+        r = part(meths["__enter__"], ast.Call(func=ast.Name(id="_", ctx=ast.Load()), args=[], keywords=[]), False)
+        if r is None:
+            return None
+        entry += r[0]
+        bound = r[1]
+        nones = [ast.Constant(value=None) for _ in meths["__exit__"].args.args[1:]]
+        x = part(meths["__exit__"], ast.Call(func=ast.Name(id="_", ctx=ast.Load()), args=nones, keywords=[]), True)
+        return entry, bound, (x[0] if x is not None else [])
+    return None
+
+
+def inline_context_managers(func, resolve, max_depth: int = 3):
+    """`with CM(..) [as v]: BODY`  ->  <what entering CM does>; [v = <what it hands over>]; BODY; <what leaving it without an exception
+    does>  for the context managers _cm_parts understands (`resolve(name) -> FunctionDef | ClassDef | None` finds them in the module);
+    `with A, B:` is `with A: with B:`;  `with (A if c else B): BODY` is `if c: with A: BODY else: with B: BODY`;  a local bound once to
+    such an expression (`session = A if c else B; with session:`) is read through.  Any other `with` (open(..), locks) stays.  The
+    inlined statements carry the line of the `with` (those of the exit its last line), so that "before / after the block" still reads
+    off the line numbers."""
+    once = {}
+    for n in ast.walk(func):
+        if isinstance(n, ast.Assign) and len(n.targets) == 1 and isinstance(n.targets[0], ast.Name):
+            once.setdefault(n.targets[0].id, []).append(n.value)
+    stores = {}
+    for n in ast.walk(func):
+        if isinstance(n, ast.Name) and isinstance(n.ctx, (ast.Store, ast.Del)):
+            stores[n.id] = stores.get(n.id, 0) + 1
+
+    def expand(stmts, depth):
+        out = []
+        for st in stmts:
+            for fld in ("body", "orelse", "finalbody"):
+                b = getattr(st, fld, None)
+                if isinstance(b, list) and b and isinstance(b[0], ast.stmt):
+                    setattr(st, fld, expand(b, depth))
+            if isinstance(st, ast.Try):
+                for h in st.handlers:
+                    h.body = expand(h.body, depth)
+            if not isinstance(st, ast.With) or depth > max_depth:
+                out.append(st)
+                continue
+            if len(st.items) > 1:
+                inner = ast.copy_location(ast.With(items=st.items[1:], body=st.body), st)
+                st = ast.copy_location(ast.With(items=st.items[:1], body=[inner]), st)
+                out.extend(expand([st], depth))
+                continue
+            item = st.items[0]
+            e = item.context_expr
+            if isinstance(e, ast.Name) and stores.get(e.id) == 1 and len(once.get(e.id, [])) == 1:
+                e = once[e.id][0]
+            if isinstance(e, ast.IfExp):
+                a = ast.copy_location(ast.With(items=[ast.withitem(context_expr=e.body, optional_vars=copy.deepcopy(item.optional_vars))], body=st.body), st)
+                b = ast.copy_location(ast.With(items=[ast.withitem(context_expr=e.orelse, optional_vars=copy.deepcopy(item.optional_vars))], body=copy.deepcopy(st.body)), st)
+                if _cm_parts(e.body, resolve) is not None and _cm_parts(e.orelse, resolve) is not None:
+                    out.append(ast.copy_location(ast.If(test=copy.deepcopy(e.test), body=expand([a], depth + 1), orelse=expand([b], depth + 1)), st))
+                    continue
+            parts = _cm_parts(e, resolve)
+            if parts is None:
+                out.append(st)
+                continue
+            entry, bound, leave = parts
+            if item.optional_vars is not None:
+                if bound is None:
+                    out.append(st)
+                    continue
+                entry = entry + [ast.Assign(targets=[copy.deepcopy(item.optional_vars)], value=bound)]
+            out.extend(_relocate(entry, st) + st.body + _relocate(leave, st, end=True))
+        return out
+    func.body = expand(func.body, 0)
+    ast.fix_missing_locations(func)
+    return func
 
 
 def normalize_function(func, tables: dict | None = None, ctables: dict | None = None, cname: str | None = None):
